@@ -148,6 +148,20 @@ def gen_cases(tier: str, seed: int) -> list[dict[str, Any]]:
                        bucket_cap_mb=0.00004, symmetry=False, in_hook=True,
                        colocate=False, F=1, I=1, accum=1, model='mlp4',
                        ddp=True)]
+    # AMP: the scaled loss of ONE rank overflows in one iteration (non-finite
+    # gradients there); every rank must still issue the same collectives
+    # (no step follows: what K-FAC computes from non-finite statistics is not
+    # the subject of C03)
+    for j, (W, k) in enumerate([(2, 1), (4, 2)] if tier == 'quick'
+                               else [(2, 1), (2, 2), (4, 2), (4, 4), (4, 1)]):
+        c = dict(W=W, k=k, method='eigen', prediv=True,
+                 bucket_cap_mb=[0.0, 25.0][j % 2], symmetry=False,
+                 in_hook=True, colocate=True, F=1, I=1, accum=1,
+                 model='mlp3', ddp=False, grad_scaler=1024.0,
+                 overflow=[1, W - 1])
+        cases.append({'cfg': c, 'hist_name': 'amp_overflow',
+                      'history': [['train', 1], ['step'], ['train', 1]],
+                      'seed': seed * 1000 + 950 + j})
     n_it = 90 if tier == 'quick' else 260
     for j, c in enumerate(longs):
         cases.append({'cfg': c, 'hist_name': 'marathon',
